@@ -401,3 +401,105 @@ def main(argv):
         return 2
     finally:
         sc.close()
+
+
+# ------------------------------------------------------------------------------------------------
+# E2: concurrent histories validated by TLC (Trace_Lin)
+
+def walks_to_conc_cases(walks, mode_cycle=('rr', 'pipe')):
+    """Split each TLC walk (one interleaving) into one program per connection."""
+    cases = []
+    for n, w in enumerate(walks):
+        progs = {}
+        for s in w['steps']:
+            if s['c'] == 0:
+                continue
+            progs.setdefault(str(s['c']), []).append(s['cmd'])
+        cases.append({'id': n, 'pre': w['pre'], 'progs': progs, 'mode': mode_cycle[n % len(mode_cycle)]})
+    return cases
+
+
+def run_conc(exe, sc, cases, workers=4, port=22000, timeout_ms=3000, tag='conc'):
+    port = int(os.environ.get('VERIF_PORT', port)) + 500
+    cf = sc.path(tag + '-cases.jsonl')
+    rf = sc.path(tag + '-hist.jsonl')
+    with open(cf, 'w') as f:
+        for c in cases:
+            f.write(json.dumps(c, separators=(',', ':')) + '\n')
+    p = subprocess.run([exe, 'conc', '-cases', cf, '-out', rf, '-workers', str(workers), '-port', str(port),
+                        '-timeout', str(timeout_ms)], stdout=subprocess.PIPE, stderr=subprocess.PIPE, text=True)
+    if p.returncode != 0:
+        raise Inconclusive('conc engine failed: ' + p.stderr[-2000:])
+    hs = [json.loads(l) for l in open(rf)]
+    if len(hs) != len(cases):
+        raise Inconclusive('conc engine returned %d histories for %d cases' % (len(hs), len(cases)))
+    hs.sort(key=lambda h: h['id'])
+    return hs
+
+
+def _validate_chunk(sc, hists, devs, module, tag, timeout):
+    """One TLC process over a chunk of histories.  Returns (accepted ids, rejected [(history, event)], stats)."""
+    remaining = list(hists)
+    rejected, stats_all, accepted = [], [], []
+    rounds = 0
+    while remaining:
+        rounds += 1
+        d = sc.path('tlc-%s-%d' % (tag, rounds))
+        shutil.copytree(SPEC, d)
+        with open(os.path.join(d, 'hist.ndjson'), 'w') as f:
+            for hrec in remaining:
+                f.write(json.dumps(hrec, separators=(',', ':')) + '\n')
+        cfg = open(os.path.join(SPEC, module + '.cfg')).read().replace('OpenDev = {}', 'OpenDev = ' + tla_set(devs))
+        open(os.path.join(d, module + '.cfg'), 'w').write(cfg)
+        out = os.path.join(d, 'tlc.out')
+        env = dict(os.environ, JAVA_TOOL_OPTIONS='-Dtlc2.tool.queue.IStateQueue=StateDeque -Xmx3g')
+        t0 = time.time()
+        with open(out, 'w') as f:
+            p = subprocess.run(['timeout', '-s', 'KILL', str(timeout), 'tlc', '-workers', '1', '-metadir', os.path.join(d, 'md'),
+                                '-noGenerateSpecTE', module + '.tla'], cwd=d, env=env, stdout=f, stderr=subprocess.STDOUT)
+        txt = open(out, errors='replace').read()
+        st = {'wall_s': round(time.time() - t0, 2), 'histories': len(remaining)}
+        m = re.search(r'(\d[\d,]*) states generated, (\d[\d,]*) distinct states found', txt)
+        if m:
+            st['generated'] = int(m.group(1).replace(',', ''))
+            st['distinct'] = int(m.group(2).replace(',', ''))
+        stats_all.append(st)
+        shutil.rmtree(os.path.join(d, 'md'), ignore_errors=True)
+        if p.returncode in (137, 124):
+            raise Inconclusive('TLC timed out validating histories')
+        if 'Invariant NotAllAccepted is violated' in txt:
+            accepted.extend(h['id'] for h in remaining)
+            break
+        mk = re.search(r'<<"MARK", (\d+)>>', txt)
+        if not mk or 'Model checking completed' not in txt:
+            raise Inconclusive('TLC failed while validating histories:\n' + txt[-3000:])
+        mark = int(mk.group(1))
+        hi, ev = mark // 100000, mark % 100000
+        if hi < 1 or hi > len(remaining):
+            raise Inconclusive('unexpected progress mark %d' % mark)
+        bad = remaining[hi - 1]
+        rejected.append((bad, ev))
+        accepted.extend(h['id'] for h in remaining[:hi - 1])
+        remaining = remaining[hi:]
+        if len(rejected) > 5:
+            break
+    return accepted, rejected, stats_all
+
+
+def validate_histories(sc, hists, devs, module='Trace_Lin', tag='lin', timeout=900, procs=8):
+    """TLC decides each recorded history (several single-worker TLC processes side by side, each over a
+    chunk of the histories: the depth-first trace search needs -workers 1)."""
+    from concurrent.futures import ThreadPoolExecutor
+    if not hists:
+        return [], [], []
+    n = max(1, min(procs, len(hists) // 4 or 1))
+    chunks = [hists[i::n] for i in range(n)]
+    accepted, rejected, stats = [], [], []
+    with ThreadPoolExecutor(max_workers=n) as ex:
+        futs = [ex.submit(_validate_chunk, sc, ch, devs, module, '%s-%d' % (tag, k), timeout) for k, ch in enumerate(chunks)]
+        for fu in futs:
+            a, r, s_ = fu.result()
+            accepted.extend(a)
+            rejected.extend(r)
+            stats.extend(s_)
+    return accepted, rejected, stats
